@@ -4,6 +4,11 @@
 package wazevo
 
 import (
+	"context"
+	"github.com/tetratelabs/wazero/api"
+	"github.com/tetratelabs/wazero/experimental"
+	"github.com/tetratelabs/wazero/internal/engine/wazevo/wazevoapi"
+	"github.com/tetratelabs/wazero/internal/wasmdebug"
 	"io"
 	"unsafe"
 
@@ -12,6 +17,11 @@ import (
 )
 
 var (
+	_ context.Context
+	_ api.FunctionDefinition
+	_ experimental.FunctionListener
+	_ = wazevoapi.ExitCodeOK
+	_ wasmdebug.ErrorBuilder
 	_ = wasmruntime.ErrRuntimeStackOverflow
 	_ unsafe.Pointer
 	_ io.Reader
@@ -82,7 +92,9 @@ func bufBase(b []byte) uint64 {
 
 // ---- C04: a global owned by the compiler engine lives in the module context; the host API reads and
 // writes exactly the 16 bytes compiled code uses for it.
-func globalOff(m *moduleEngine, i wasm.Index) int { return int(m.parent.offsets.GlobalsBegin) + 16*int(i) }
+func globalOff(m *moduleEngine, i wasm.Index) int {
+	return int(m.parent.offsets.GlobalsBegin) + 16*int(i)
+}
 
 func globalSlotOK(m *moduleEngine, i wasm.Index) bool {
 	return m.parent != nil && m.module != nil && m.module.Source != nil && int(m.parent.offsets.GlobalsBegin) >= 0 &&
@@ -106,8 +118,8 @@ func globalSlotOK(m *moduleEngine, i wasm.Index) bool {
 // An imported memory is the exporter's MemoryInstance object itself (or, through a chain of
 // re-exports, whatever the exporter imported): the importer's module context receives its address.
 func asME(e wasm.ModuleEngine) *moduleEngine { me, _ := e.(*moduleEngine); return me }
-func memPtr(mi *wasm.MemoryInstance) uint64 { return uint64(uintptr(unsafe.Pointer(mi))) }
-func impMemOff(m *moduleEngine) int         { return int(m.parent.offsets.ImportedMemoryBegin) }
+func memPtr(mi *wasm.MemoryInstance) uint64  { return uint64(uintptr(unsafe.Pointer(mi))) }
+func impMemOff(m *moduleEngine) int          { return int(m.parent.offsets.ImportedMemoryBegin) }
 
 //@ func (m *moduleEngine) ResolveImportedMemory(importedModuleEngine wasm.ModuleEngine)
 //@   requires asME(importedModuleEngine) != nil && asME(importedModuleEngine).parent != nil && asME(importedModuleEngine).module != nil && m.parent != nil
@@ -132,3 +144,22 @@ func impMemOff(m *moduleEngine) int         { return int(m.parent.offsets.Import
 //@   requires len(c.stack) < 1<<40 && c.execCtx.stackGrowRequiredSize < 1<<40
 //@   ensures[overflow-is-an-error] uintptr(old(len(c.stack))) > callStackCeiling ==> err == wasmruntime.ErrRuntimeStackOverflow && len(c.stack) == old(len(c.stack))
 //@   ensures[otherwise-grows] uintptr(old(len(c.stack))) <= callStackCeiling ==> err == nil && uintptr(len(c.stack)) == 2*uintptr(old(len(c.stack))) + old(c.execCtx.stackGrowRequiredSize) + 16
+
+// ---- C06: whatever way a call through the compiler engine fails - a recovered panic (trap, host panic,
+// exit) or a module found closed afterwards - the call engine's exit code is reset, so that the same
+// function object can be called again. Contract on the deferred function literal of callWithStack,
+// verified from an arbitrary state of its captured variables with recover() arbitrary.
+//@ prop C06
+// (native stack walking / symbolisation: unsafe, assumed not to touch the call engine's Go state)
+//@ func (c *callEngine) addFrame(builder wasmdebug.ErrorBuilder, addr uintptr) (def api.FunctionDefinition, listener experimental.FunctionListener)
+//@   trusted
+//@   modifies nothing
+//@ func unwindStack(sp, fp, top uintptr, returnAddresses []uintptr) []uintptr
+//@   trusted
+//@   modifies nothing
+
+//@ closure 2 (c *callEngine) callWithStack(ctx context.Context, paramResultStack []uint64) (err error)
+//@   vars (c *callEngine, err error)
+//@   requires c != nil
+//@   ensures[exit-code-reset-after-any-error] err != nil ==> c.execCtx.exitCode == wazevoapi.ExitCodeOK
+//@   nosafety
